@@ -45,6 +45,97 @@ def _fraction_strings(R, prop):
                             {"string": text}, gg, {x: k * v for x, v in want.items()})
 
 
+def _consistent(R, key, what, f, inp):
+    """atoms / mass / charge / mass_fraction of f follow from f's OWN structure"""
+    want = nat.count_atoms(f.structure)
+    got = dict(f.atoms)
+    if not nat.maps_close(_atoms_names(got), _atoms_names(want)):
+        R.violation(key, what + ": atoms no longer follow from the formula's own structure", inp, _atoms_names(got), _atoms_names(want))
+        return False
+    m = sum(n * a.mass for a, n in want.items())
+    q = sum(n * getattr(a, "charge", 0) for a, n in want.items())
+    if not close(f.mass, m, 1e-12) or not close(f.charge, q, 1e-12, 1e-12):
+        R.violation(key + ":mass_charge", what + ": mass / charge no longer follow from the formula's own structure", inp, [f.mass, f.charge], [m, q])
+        return False
+    return True
+
+
+def _operands_unchanged(R, prop):
+    """operations that return a new formula leave their operands unchanged, ALSO when the result is extended in place afterwards"""
+    from copy import copy
+    from periodictable.formulas import formula
+    for text in ("H2O", "Na{+}Cl{-}", "CaCO3(H2O)6", "D2O", "Fe[56]2O3"):
+        for how in ("1*f", "1.0*f", "copy(f)", "f+empty", "formula(f)", "2*f", "f.hill", "0*f+f"):
+            f, h = formula(text), formula("XeF6")
+            R.ok(2, ("operand-after-inplace", text, how))
+            g = {"1*f": lambda: 1 * f, "1.0*f": lambda: 1.0 * f, "copy(f)": lambda: copy(f), "f+empty": lambda: f + formula(), "formula(f)": lambda: formula(f),
+                 "2*f": lambda: 2 * f, "f.hill": lambda: f.hill, "0*f+f": lambda: 0 * f + f}[how]()
+            before = (_atoms_names(f.atoms), f.structure, f.mass)
+            g += h
+            inp = {"formula": text, "derived_by": how, "then": "derived += XeF6"}
+            if g is f:
+                R.violation("%s:operand_returned:%s" % (prop, how), "%s returned its operand itself" % how, inp)
+                continue
+            if (_atoms_names(f.atoms), f.structure, f.mass) != before:
+                R.violation("%s:operand_changed_by_later_inplace:%s" % (prop, how), "after g = %s and g += h the operand f reports other atoms / structure / mass" % how,
+                            inp, _atoms_names(f.atoms), before[0])
+                continue
+            _consistent(R, "%s:operand_inconsistent:%s" % (prop, how), "operand f after g = %s; g += h" % how, f, inp)
+            _consistent(R, "%s:derived_inconsistent:%s" % (prop, how), "g after g = %s; g += h" % how, g, inp)
+
+
+def _parse_isolation(R, texts, prop, calc=None):
+    """every parse of a string is a new formula: what one caller does to its result (density, name, +=) is invisible to the next parse"""
+    from periodictable.formulas import formula, parse_formula
+    for text in texts:
+        for parser in (formula, parse_formula):
+            R.ok(2, ("parse-isolation", text, parser.__name__))
+            f1 = parser(text)
+            snap = (_atoms_names(f1.atoms), f1.density, f1.name, str(f1))
+            v0 = calc(text) if calc else None
+            f1.density = 9.75
+            f1.name = "edited by its owner"
+            f1 += formula("XeF6")
+            f2 = parser(text)
+            inp = {"string": text, "parser": parser.__name__, "then": "density/name assigned and += on the first result, string parsed again"}
+            got = (_atoms_names(f2.atoms), f2.density, f2.name, str(f2))
+            if f2 is f1 or got != snap:
+                R.violation("%s:parse_result_shared:%s" % (prop, parser.__name__), "the second parse of %r is not what the first parse was: the first caller's "
+                            "edits (density, name, +=) show" % text, inp, got, snap)
+                continue
+            if calc:
+                v1 = calc(text)
+                if repr(v1) != repr(v0):
+                    R.violation("%s:calculation_sees_other_callers_edits" % prop, "the same call on the string %r gives another result after another caller edited ITS "
+                                "parsed formula" % text, inp, repr(v1)[:200], repr(v0)[:200])
+
+
+TINY_COUNTS = (4e-10, 1e-12, 2.5e-15, 0.999997, 1.9999999995)
+
+
+def _tiny_counts(R, prop, hill=False):
+    """trace amounts and counts just off a whole number are counts like any other"""
+    import periodictable as pt
+    from periodictable.formulas import formula
+    for q in TINY_COUNTS:
+        builds = {"sequence": lambda: formula([(q, pt.B), (1, pt.Si)]), "nested": lambda: formula([(q, [(1, pt.B)]), (1, pt.Si)]),
+                  "n*f+g": lambda: q * formula("B") + formula("Si"), "dict": lambda: formula({pt.B: q, pt.Si: 1}),
+                  "string": lambda: formula("B%sSi" % (("%.16f" % q).rstrip("0") if q < 1e-4 else repr(q)))}
+        for how, mk in builds.items():
+            R.ok(2, ("tiny-count", q, how))
+            f = mk()
+            f = f.hill if hill else f
+            got = f.atoms.get(pt.B)
+            if got is None or not close(got, q, 1e-9, 0.0) or not close(f.atoms.get(pt.Si, 0), 1, 1e-12):
+                R.violation("%s:tiny_count:%s" % (prop, how), "a count of %r given through %s%s is reported as %r" % (q, how, " (Hill form)" if hill else "", got),
+                            {"count": q, "how": how}, got, q)
+                continue
+            m = q * pt.B.mass + pt.Si.mass
+            if not close(f.mass, m, 1e-12) or not close(f.mass_fraction[pt.B], q * pt.B.mass / m, 1e-9):
+                R.violation("%s:tiny_count_mass:%s" % (prop, how), "mass / mass fraction ignore a count of %r" % q, {"count": q, "how": how},
+                            [f.mass, f.mass_fraction[pt.B]], [m, q * pt.B.mass / m])
+
+
 def _aliasing(R, texts, prop):
     import periodictable as pt
     from periodictable.formulas import formula
@@ -95,6 +186,8 @@ def task_C02(tier, seed, arg):
         texts.append(s)
     _aliasing(R, texts, "C02")
     _fraction_strings(R, "C02")
+    _operands_unchanged(R, "C02")
+    _tiny_counts(R, "C02")
     # an ion and the same ion of one isotope are different atoms with different masses
     K = pt.constants.electron_mass
     for el, iso, q in (("Fe", 57, 3), ("H", 2, 1), ("Li", 6, 1), ("Cl", 37, -1), ("O", 18, -2)):
@@ -166,11 +259,37 @@ def task_C01(tier, seed, arg):
                         "(density, name, +=) the next parse of the blank string is no longer the empty formula" % blank,
                         {"string": blank}, {"atoms": _atoms_names(g.atoms), "density": g.density, "name": g.name, "same_object": g is f},
                         {"atoms": {}, "density": None, "name": None, "same_object": False})
+    _parse_isolation(R, ["NaCl", "H2O", "CaCO3(H2O)6", "Fe{3+}2O{2-}3", "D2O@1.1n", "Fe", "5g NaCl // 50mL H2O@1", "50 wt% Co // Ti"], "C01")
     name = "stateful_c01_%d" % random.Random(seed).randrange(10 ** 9)
     T = core.PeriodicTable(name)
     try:
         mass.init(T)
         density.init(T)
+        # the charges a table defines are the entries of el.ions WHEN THE STRING IS PARSED (a private table may be customised
+        # after ions of the element were already used)
+        def parses(text):
+            try:
+                return formula(text, table=T)
+            except Exception:
+                return None
+        first = [parses("Fe{2+}O{2-}"), parses("Na{+}Cl{-}"), parses("Fe[56]{3+}")]
+        R.ok(3, ("ions-edited", "first use"))
+        if any(x is None for x in first) or parses("Na{2+}") is not None:
+            R.violation("C01:private_table:ions_first_use", "ions the stock table defines are rejected (or Na{2+} accepted) on a fresh private table", "Fe{2+}O{2-}")
+        T.Fe.ions = (2, 3)
+        T.Na.ions = tuple(T.Na.ions) + (2,)
+        for text in ("Fe{6+}O4", "Fe{-}", "K2Fe{6+}O{2-}4", "Fe[56]{6+}"):
+            R.ok(1, ("ions-edited", text))
+            f = parses(text)
+            if f is not None:
+                R.violation("C01:private_table:charge_removed_still_accepted", "after T.Fe.ions = (2, 3) the string %r (a charge T no longer defines) still yields a formula" % text,
+                            {"string": text, "Fe.ions": [2, 3]}, _atoms_names(f.atoms), "an exception")
+        for text, q in (("Na{2+}", 2), ("Na{2+}O{2-}", 0), ("Na[23]{2+}", 2)):
+            R.ok(1, ("ions-edited", text))
+            f = parses(text)
+            if f is None or f.charge != q:
+                R.violation("C01:private_table:charge_added_still_rejected", "after Na{2+} was added to T.Na.ions the string %r is rejected (or has the wrong charge)" % text,
+                            {"string": text}, None if f is None else f.charge, q)
         T.H.add_isotope(7)._mass = 7.05
         T.D._mass = 2.5
         T.Fe._density = 5.0
@@ -240,6 +359,32 @@ def task_C12(tier, seed, arg):
             if not close(g.density, 1.0 / r, 1e-12) or not close(g.natural_density, 1.0, 1e-12):
                 R.violation("C12:stale_density:%s" % first, "alternating assignments leave density/natural_density inconsistent", {"formula": text},
                             [g.density, g.natural_density], [1.0 / r, 1.0])
+    # a private table with customised masses (the documented H = 1 example): the ratio is taken over THAT table's masses
+    from periodictable import core as _core, mass as _mass, density as _density
+    tname = "stateful_c12_%d" % random.Random(seed).randrange(10 ** 9)
+    T = _core.PeriodicTable(tname)
+    try:
+        _mass.init(T)
+        _density.init(T)
+        T.H._mass = 1.0
+        T.O._mass = 16.5
+        for text in ("D2O", "H[1]2O", "C[13]D4", "LiD", "O[18]2"):
+            f = formula(text + "@1n", table=T)
+            nat_m = sum(n * (a.element.mass if _core.isisotope(a) else a.mass) for a, n in f.atoms.items())
+            r = nat_m / f.mass
+            R.ok(3, ("private-masses", text))
+            if not close(f.density, 1.0 / r, 1e-12) or not close(f.natural_density, 1.0, 1e-12):
+                R.violation("C12:private_table_masses:tag", "'%s@1n' on a private table with customised masses: density is not natural density / ratio over THAT table's masses" % text,
+                            {"formula": text, "H.mass": 1.0, "O.mass": 16.5}, [f.density, f.natural_density], [1.0 / r, 1.0])
+            g = formula(text, table=T, density=2.0)
+            if not close(g.natural_density, 2.0 * r, 1e-12):
+                R.violation("C12:private_table_masses:keyword", "formula(%r, table=T, density=2): natural_density is not density * ratio over T's masses" % text,
+                            {"formula": text}, g.natural_density, 2.0 * r)
+            g.natural_density = 3.0
+            if not close(g.density, 3.0 / r, 1e-12):
+                R.violation("C12:private_table_masses:attribute", "assigning natural_density on a private-table formula does not divide by T's ratio", {"formula": text}, g.density, 3.0 / r)
+    finally:
+        _core.PRIVATE_TABLES.pop(tname, None)
     # natural_density= / density= by keyword for every kind of initializer (string, atom object, dict, sequence, Formula)
     for atom in (pt.D, pt.Fe[56], pt.O[18], pt.Li[6], pt.Fe[54].ion[3], pt.Ni):
         nm = nat.atom_name(atom)
@@ -314,6 +459,43 @@ def task_C14(tier, seed, arg):
             b = sorted((k.daughter, [float(x) for x in v]) for k, v in f.activity.items())
             if len(a) != len(b) or any(x[0] != y[0] or not all(close(p, q, 1e-12) for p, q in zip(x[1], y[1])) for x, y in zip(a, b)):
                 R.violation("C14:stale_sample", "a re-used Sample gives other activities than a fresh one", {"formula": ftxt, "exposure": exposure, "fluence": fl})
+    # rest times given as the caller's own numpy vector (float64, float32, integer), used for several calls: the vector is only read
+    import numpy as np
+    env = act.ActivationEnvironment(fluence=1e8, Cd_ratio=70, fast_ratio=50)
+    for dtype in ("float64", "int64", "int32"):     # (float32 rest times lose digits in lambda*t: precision, not a defect)
+        vec = np.array([0, 1, 24, 360], dtype=dtype)
+        keep = vec.copy()
+        for k, iso in enumerate((pt.Au[197], pt.Co[59], pt.Cl[35], pt.Au[197])):
+            R.ok(1, ("rest-vector", dtype, k))
+            try:
+                got = act.activity(iso, 1.0, env, 10, vec)
+            except Exception as e:
+                R.violation("C14:rest_times_vector:%s:exception" % dtype, "activity(..., rest_times=<%s vector>) raised %s: %s" % (dtype, type(e).__name__, str(e)[:120]),
+                            {"isotope": nat.atom_name(iso), "dtype": dtype, "call": k})
+                break
+            exp = act.activity(iso, 1.0, env, 10, [0, 1, 24, 360])
+            if not np.array_equal(vec, keep):
+                R.violation("C14:rest_times_vector:%s:argument_modified" % dtype, "activity() changed the caller's vector of rest times",
+                            {"isotope": nat.atom_name(iso), "dtype": dtype, "call": k}, vec.tolist(), keep.tolist())
+                break
+            gk = sorted((x.daughter, x.reaction, [float(v) for v in vals]) for x, vals in got.items())
+            ek = sorted((x.daughter, x.reaction, [float(v) for v in vals]) for x, vals in exp.items())
+            if len(gk) != len(ek) or any(a[:2] != b[:2] or not all(close(x, y, 1e-6 if dtype == "float32" else 1e-12) for x, y in zip(a[2], b[2])) for a, b in zip(gk, ek)):
+                R.violation("C14:rest_times_vector:%s" % dtype, "call %d with the same vector of rest times differs from the call with the list [0, 1, 24, 360]" % k,
+                            {"isotope": nat.atom_name(iso), "dtype": dtype, "call": k}, gk[:2], ek[:2])
+                break
+        s2 = act.Sample("Co30Fe70", 10)
+        vec = np.array([0, 1, 24, 360], dtype=dtype)
+        s2.calculate_activation(env, exposure=10, rest_times=vec)
+        s3 = act.Sample("Co30Fe70", 10)
+        s3.calculate_activation(env, exposure=10, rest_times=(0, 1, 24, 360))
+        R.ok(1, ("sample-rest-vector", dtype))
+        a = sorted((k.daughter, [float(x) for x in v]) for k, v in s2.activity.items())
+        b = sorted((k.daughter, [float(x) for x in v]) for k, v in s3.activity.items())
+        if not np.array_equal(vec, np.array([0, 1, 24, 360], dtype=dtype)) or len(a) != len(b) or \
+                any(x[0] != y[0] or not all(close(p, q, 1e-6 if dtype == "float32" else 1e-12) for p, q in zip(x[1], y[1])) for x, y in zip(a, b)):
+            R.violation("C14:sample_rest_times_vector:%s" % dtype, "a Sample activated with a numpy vector of rest times differs from the tuple (or the vector was changed)",
+                        {"dtype": dtype}, a[:2], b[:2])
     return R.done()
 
 
@@ -444,6 +626,8 @@ def task_C04(tier, seed, arg):
     R0 = None
     R = Result("Formula.neutron_sld(energy=/wavelength=) (deprecated method) equals nsf.neutron_sld on the same formula, scalar and "
                "vector, for compounds with energy-dependent atoms; float64 wavelength arrays beyond the table ends are not modified", False)
+    _parse_isolation(R, ["SiO2@2.2", "CCl4@1.5867", "Gd2O3@7.4", "H2O@1", "Ni"], "C04",
+                     calc=lambda t: nsf.neutron_scattering(t, wavelength=1.8))
     # regrouped spellings (fractional and nested multipliers) against the flat spelling at the same density
     for text, want in FRACTION_STRINGS:
         flat = formula({(pt.H[2] if k == "H[2]" else getattr(pt, k)): v for k, v in want.items()})
@@ -584,6 +768,27 @@ def task_C17(tier, seed, arg):
             R.violation("C17:scalar_wavelength_type:%s" % type(lam).__name__, "a scalar wavelength of type %s must give scalar outputs equal to the direct "
                         "calculation" % type(lam).__name__, {"wavelength": float(lam), "type": type(lam).__name__},
                         [np.asarray(g).tolist() for g in got], [float(e) for e in exp])
+    # one calculator, the caller's own float64 weight vector updated in place between calls (a fit loop): each call sees the current weights
+    mats5 = [formula("H2O"), formula("D2O"), formula("SiO2")]
+    for lam in (1.8, np.array([1.0, 4.0])):
+        calc = nsf.neutron_composite_sld(mats5, wavelength=lam)
+        wbuf = np.array([1.0, 0.0, 2.0])
+        for step, new in enumerate(([1.0, 0.0, 2.0], [0.0, 1.0, 2.0], [0.5, 0.5, 0.0], [0.5, 0.5, 0.0], [3.0, 1.0, 1.0])):
+            wbuf[:] = new
+            keep = wbuf.copy()
+            R.ok(1, ("weights-buffer", np.ndim(lam), step))
+            got = calc(wbuf, density=1.5)
+            total = formula()
+            for wi, m in zip(new, mats5):
+                total = total + wi * m
+            exp = nsf.neutron_sld(total, density=1.5, wavelength=lam)
+            if not np.array_equal(wbuf, keep):
+                R.violation("C17:weights_buffer:argument_modified", "the calculator changed the caller's weight vector", {"weights": new, "step": step}, wbuf.tolist(), keep.tolist())
+                break
+            if not all(np.allclose(np.asarray(g, dtype=float), np.asarray(e, dtype=float), rtol=1e-9, atol=0) for g, e in zip(got, exp)):
+                R.violation("C17:weights_buffer:stale", "the same weight vector object, refilled in place, gives the SLD of earlier weights (step %d)" % step,
+                            {"weights": new, "step": step}, [np.asarray(g).tolist() for g in got], [np.asarray(e).tolist() for e in exp])
+                break
     # a vector of wavelengths is a vector whatever its element type or memory layout (integer-valued grids such as np.arange,
     # float32, tuples, descending or strided views): entry i equals the direct calculation at float(wavelength_i)
     mats4 = [formula("H2O"), formula("Gd2O3"), formula("SiO2"), formula("Sm2O3")]
@@ -648,6 +853,23 @@ def task_C11(tier, seed, arg):
         R.ok(1, (s,))
         if not close(f.density, inner.density, 1e-12):
             R.violation("C11:grouped_mixture_natural_density", "'( mixture )@<d>n' must set the NATURAL density of the mixture", s, f.density, inner.density)
+    # 'a wt% X // b% Y // Z' with a bare '%' in the middle, for middle components whose symbol begins like a keyword (W.., V.., M..)
+    for kw, mixer in (("wt%", mix_by_weight), ("vol%", mix_by_volume)):
+        for mid in ("W", "V", "Mn", "Mg", "Mo", "WO3", "V2O5", "Md", "Mt", "Fe"):
+            text = "10%s Cr@7.2 // 5%% %s@5 // Fe@7.9" % (kw, mid)
+            R.ok(1, ("bare-percent", kw, mid))
+            try:
+                f = formula(text)
+            except Exception as e:
+                R.violation("C11:bare_percent_middle:%s:rejected" % kw, "%r is rejected (%s), although later components may use a bare '%%'" % (text, type(e).__name__),
+                            {"string": text}, str(e)[:120])
+                continue
+            g = mixer("Cr@7.2", 10, mid + "@5", 5, "Fe@7.9", 85)
+            fa, ga = _atoms_names(f.atoms), _atoms_names(g.atoms)
+            tot_f, tot_g = sum(fa.values()), sum(ga.values())
+            if set(fa) != set(ga) or any(not close(fa[k] / tot_f, ga[k] / tot_g, 1e-9) for k in ga) or not close(f.density, g.density, 1e-9):
+                R.violation("C11:bare_percent_middle:%s" % kw, "%r differs from the corresponding %s call" % (text, mixer.__name__), {"string": text},
+                            [fa, f.density], [ga, g.density])
     # name= / density= / natural_density= given together with a string that states absolute amounts: the amount stays recorded,
     # the atoms stay those of the plain call
     for text, attr in (("2g Co // 2g Ti", "total_mass"), ("5g NaCl // 50mL H2O@1", "total_mass"), ("1mm Fe // 1mm Ni", "thickness"),
@@ -802,6 +1024,39 @@ def task_C03(tier, seed, arg):
             ev = nsf.neutron_energy(np.asarray(val, dtype=float)) if not isinstance(val, (int, float)) else nsf.neutron_energy(val)
             _entrywise(R, "C03:argument_type:energy:%s:%s" % (tname, text), "neutron_sld(%s, energy=<%s>)" % (text, tname),
                        lambda e: tuple(nsf.neutron_sld(f, energy=e)), ev)
+    # different compounds that print alike (same display name; same text from another table): each call computes ITS compound
+    import periodictable as pt
+    from periodictable import core, mass as _mass
+    fresh = lambda t, **kw: nsf.neutron_scattering(formula(t, **kw), density=2.0, wavelength=1.8)
+    pairs = [("H2O", "D2O"), ("SiO2", "GeO2"), ("Ni", "Ni[62]"), ("Gd2O3", "Sm2O3"), ("NaCl", "KCl")]
+    for a, b in pairs:
+        R.ok(2, ("same-name", a, b))
+        fa, fb = formula(a, name="sample"), formula(b, name="sample")
+        ra1 = nsf.neutron_scattering(fa, density=2.0, wavelength=1.8)
+        rb = nsf.neutron_scattering(fb, density=2.0, wavelength=1.8)
+        ra2 = nsf.neutron_scattering(fa, density=2.0, wavelength=1.8)
+        for tag, got, want in (("second compound", rb, fresh(b)), ("first compound again", ra2, fresh(a)), ("first compound", ra1, fresh(a))):
+            if repr(got) != repr(want):
+                R.violation("C03:same_display_name:%s" % tag.replace(" ", "_"), "two compounds with the same name= (%s, %s): the %s is not computed from its own atoms" % (a, b, tag),
+                            {"first": a, "second": b, "name": "sample"}, repr(got)[:160], repr(want)[:160])
+    name = "stateful_c03_%d" % random.Random(seed).randrange(10 ** 9)
+    T = core.PeriodicTable(name)
+    try:
+        _mass.init(T)
+        from periodictable import density as _density
+        _density.init(T)
+        nsf.init(T)
+        T.H._mass = 1.0
+        for text in ("H2O", "CH2"):
+            R.ok(1, ("same-text-other-table", text))
+            pub = nsf.neutron_sld(formula(text), density=1.0, wavelength=1.8)
+            prv = nsf.neutron_sld(formula(text, table=T), density=1.0, wavelength=1.8)
+            mp, mt = formula(text).mass, formula(text, table=T).mass
+            if not close(prv[0] * mt, pub[0] * mp, 1e-9):     # same scattering lengths, other molar mass: SLD scales with 1/mass
+                R.violation("C03:same_text_other_table", "the same text on a private table with another H mass: the SLD does not scale with the molar mass",
+                            {"string": text}, prv[0], pub[0] * mp / mt)
+    finally:
+        core.PRIVATE_TABLES.pop(name, None)
     return R.done()
 
 
@@ -824,7 +1079,38 @@ def task_C05(tier, seed, arg):
         for atom in (pt.Ni, pt.Fe.ion[2], pt.O.ion[-2]):
             _entrywise(R, "C05:argument_type:f0:%s:%s" % (tname, nat.atom_name(atom)), "%s.xray.f0(<%s>)" % (nat.atom_name(atom), tname),
                        lambda q: atom.xray.f0(q), val, prec)
+    # f0 of every tabulated atom / ion, then a request for an ion of the same element that has NO coefficients (whatever that
+    # request does: KeyError, an estimate, ...), then the tabulated ones again: unchanged, still -> Z - charge
+    Q = np.array([1e-6, 0.5, 2.0, 10.0])
+    for el in (pt.O, pt.Fe, pt.Cl, pt.Na, pt.Cu, pt.Si, pt.Ti, pt.U):
+        tab = [a for a in [el] + [el.ion[q] for q in el.ions] if _has_f0(a)]
+        untab = [q for q in range(-3, 8) if q != 0 and q not in el.ions] + [q for q in el.ions if not _has_f0(el.ion[q])]
+        before = [np.array(a.xray.f0(Q), dtype=float) for a in tab]
+        for q in untab:
+            try:
+                ion = el.ion[q] if q in el.ions else None
+                if ion is None:       # a charge the table does not list: ask the coefficient table directly
+                    from periodictable import cromermann
+                    cromermann.fxrayatq(el.symbol, Q, charge=q)
+                else:
+                    ion.xray.f0(Q)
+            except Exception:
+                pass
+        for a, b0 in zip(tab, before):
+            R.ok(1, ("f0-after-untabulated", nat.atom_name(a)))
+            b1 = np.array(a.xray.f0(Q), dtype=float)
+            if not np.allclose(b1, b0, rtol=1e-12, atol=0) or abs(b1[0] - (a.number - getattr(a, "charge", 0))) > 0.06:
+                R.violation("C05:f0_changed_by_request_for_untabulated_ion", "f0 of %s changed (or no longer tends to Z - charge) after f0 was requested for charge states of %s "
+                            "without coefficients" % (nat.atom_name(a), el.symbol), {"atom": nat.atom_name(a), "requested_charges": untab[:12]}, b1.tolist(), b0.tolist())
     return R.done()
+
+
+def _has_f0(atom):
+    try:
+        atom.xray.f0(0.5)
+        return True
+    except Exception:
+        return False
 
 
 # ------------------------------------------------------------------------------------------------ C19
@@ -853,6 +1139,7 @@ def task_C19(tier, seed, arg):
                 R.violation("C19:mixed_tables:idempotent:%d" % k, "hill of hill differs", {"case": k})
     finally:
         core.PRIVATE_TABLES.pop(name, None)
+    _tiny_counts(R, "C19", hill=True)
     for el, isos, q in (("Ni", (58, 60), 2), ("O", (16, 18), -2), ("Li", (6, 7), 1), ("Fe", (54, 56), 3)):
         E = getattr(pt, el)
         a, b, c = E[isos[0]].ion[q], E[isos[1]].ion[q], E.ion[q]
@@ -867,6 +1154,107 @@ def task_C19(tier, seed, arg):
         if got != want:
             R.violation("C19:isotope_ions_order:%s:mass_number" % el, "isotopes of one element (same charge) are not in order of mass number "
                         "after the natural element", {"atoms": want}, got, want)
+    return R.done()
+
+
+def task_C13(tier, seed, arg):
+    import periodictable as pt
+    from periodictable.formulas import formula, mix_by_weight
+    R = Result("print -> parse after OTHER formulas with the same text were parsed and edited in place by their owners (+=, name, density); "
+               "counts just below one and trace counts", False)
+    texts = ["NaCl", "D{+}3O", "H2O", "CaCO3(H2O)6", "Fe[56]{2+}O{2-}"]
+    _parse_isolation(R, texts, "C13")
+    def roundtrip(f, label):
+        text = str(f)
+        R.ok(1, ("roundtrip", label))
+        try:
+            back = formula(text)
+        except Exception as e:
+            R.violation("C13:history:unparseable", "%s: %r does not parse back: %s" % (label, text, e), {"case": label}, str(e)[:120])
+            return
+        if not nat.maps_close(_atoms_names(back.atoms), {k: float("%.6g" % v) for k, v in _atoms_names(f.atoms).items()}, 1e-12) \
+                or repr(back) != "formula('%s')" % text:
+            R.violation("C13:history:changed", "%s: %r parses back to other atoms (or another repr) after an earlier parse of the same text was edited by its owner" % (label, text),
+                        {"case": label}, [_atoms_names(back.atoms), repr(back)], [_atoms_names(f.atoms), "formula('%s')" % text])
+    brine = formula("NaCl")
+    brine += formula("H2O")
+    roundtrip(formula(pt.Na) + formula(pt.Cl), "Na + Cl after an edited parse of 'NaCl'")
+    acid = formula("D{+}3O")
+    acid.name = "hydronium"
+    acid.density = 1.3
+    roundtrip(3 * formula(pt.D.ion[1]) + formula(pt.O), "3 D{+} + O after an edited parse of 'D{+}3O'")
+    w = formula("H2O")
+    w += formula("NaCl")
+    roundtrip(mix_by_weight("H2O", 100, "NaCl", 0), "mix_by_weight(H2O, 100, NaCl, 0) after an edited parse of 'H2O'")
+    # counts that print with six digits print as they are: just below one, trace amounts
+    for q in (0.999997, 0.9999951, 0.99999, 1.00001, 4e-10, 2.5e-15):
+        for mk, label in ((lambda: formula([(q, pt.H), (1, pt.O)]), "H%gO"), (lambda: formula([(q, [(1, pt.Na), (1, pt.Cl)]), (3, pt.O)]), "(NaCl)%gO3"),
+                          (lambda: q * formula(pt.Fe.ion[2]), "%g*Fe{2+}")):
+            f = mk()
+            R.ok(1, ("near-one", q, label))
+            try:
+                back = formula(str(f))
+            except Exception as e:
+                R.violation("C13:count_near_one:unparseable", "%r does not parse back" % str(f), {"count": q}, str(e)[:100])
+                continue
+            want = {k: float("%.6g" % v) for k, v in _atoms_names(f.atoms).items()}
+            if not nat.maps_close(_atoms_names(back.atoms), want, 1e-12):
+                R.violation("C13:count_near_one", "a count of %r is not printed to six digits: %r parses back with other counts" % (q, str(f)), {"count": q, "case": label % q},
+                            _atoms_names(back.atoms), want)
+    return R.done()
+
+
+def task_C18(tier, seed, arg):
+    import periodictable as pt
+    from periodictable import core, mass, density, fasta
+    from periodictable.formulas import formula
+    R = Result("sequences built AFTER single residues / nucleotides were requested through the 'aa:' / 'dna:' / 'rna:' prefixes on a private "
+               "table, after the returned formulas were edited by the caller, and after the same sequence was built before: formula and masses "
+               "are still the sums over the residue codes", False)
+    def reference(letters, typ):
+        tab = fasta.CODE_TABLES[typ]
+        atoms, m, dm = {}, 0.0, 0.0
+        for c in letters:
+            for a, n in tab[c].labile_formula.atoms.items():
+                atoms[a] = atoms.get(a, 0) + n
+        return atoms
+    cases = [("aa", "GAG"), ("aa", "GGSGG"), ("dna", "GATTACA"), ("rna", "GAUUACA"), ("aa", "KVFGRCELAAAMKRHGLDNYRGYSLGNWVCAAKFESNFNTQATNRNTDGSTDYGILQINSRWWCNDGRTPGSRNLCNIPCSALLSSDITASVNCAKKIVSDGNGMNAWVAWRNRCKGTDVQAWIRGCRL")]
+    snap = {}
+    for typ, letters in cases:
+        s0 = fasta.Sequence("s", letters, type=typ)
+        snap[(typ, letters)] = (_atoms_names(s0.labile_formula.atoms), s0.mass, s0.Dmass, s0.sld, s0.Dsld)
+    name = "stateful_c18_%d" % random.Random(seed).randrange(10 ** 9)
+    T = core.PeriodicTable(name)
+    try:
+        mass.init(T)
+        density.init(T)
+        T.H._mass = 1.0
+        for typ, codes in (("aa", "GASK"), ("dna", "GATC"), ("rna", "GAUC")):
+            for c in codes:
+                f = formula("%s:%s" % (typ, c), table=T)            # a single code on the private table
+                R.ok(1, ("prefix-private", typ, c))
+                if any(core.change_table(a, T) is not a for a in f.atoms):
+                    R.violation("C18:prefix_private_table:%s" % typ, "formula('%s:%s', table=T) holds atoms that are not atoms of T" % (typ, c), {"code": c, "type": typ})
+                g = formula("%s:%s" % (typ, c))                      # and on the public table; the caller then edits ITS result
+                g += formula("XeF6")
+                g.density = 9.0
+    finally:
+        core.PRIVATE_TABLES.pop(name, None)
+    for typ, letters in cases:
+        s1 = fasta.Sequence("s", letters, type=typ)
+        R.ok(2, ("sequence-after", typ, len(letters)))
+        got = (_atoms_names(s1.labile_formula.atoms), s1.mass, s1.Dmass, s1.sld, s1.Dsld)
+        want = snap[(typ, letters)]
+        ok = nat.maps_close(got[0], want[0], 1e-12) and all(close(x, y, 1e-12) for x, y in zip(got[1:], want[1:]))
+        if not ok or any(a.table is not pt.elements.H.table for a in s1.labile_formula.atoms if hasattr(a, "table")):
+            R.violation("C18:sequence_after_prefix_on_private_table:%s" % typ, "Sequence(%r) built after single codes were requested with table=T (and after callers edited "
+                        "the formulas they were given) differs from the same sequence built before" % (letters[:12],), {"type": typ, "sequence": letters[:40]},
+                        [got[0], got[1], got[2]], [want[0], want[1], want[2]])
+        want_atoms = _atoms_names(reference(letters, typ))
+        pre = formula("%s:%s" % (typ, letters))
+        if not nat.maps_close(_atoms_names(pre.atoms), got[0], 1e-12):
+            R.violation("C18:prefix_differs_from_class:%s" % typ, "formula('%s:...') differs from the Sequence class afterwards" % typ, {"type": typ, "sequence": letters[:40]},
+                        _atoms_names(pre.atoms), got[0])
     return R.done()
 
 
